@@ -158,7 +158,10 @@ impl DiskRowset {
                     let mut first_key: &[u8] = &index.first_key;
                     let first_val: i32 = PrimitiveFixedWidthEncode::decode(&mut first_key);
 
-                    if first_val > begin_val {
+                    // rows with the key `begin_val` may already end the block before the first
+                    // block that starts with it: start from the last block whose first key is
+                    // smaller
+                    if first_val >= begin_val {
                         break;
                     }
                     pre_block_first_key = index.first_rowid;
